@@ -7,7 +7,7 @@ From PC.Sup Require Import Model Monitors Check Tactics Sim ObsFacts Effects Rel
 Import ListNotations RecordSetNotations.
 
 (* the window hypothesis of the full theorem: F20/F21 (commit), F37 (sdlag), F25 (dup), F38 (zombie) *)
-Definition W_C02 (o : obs) : bool := W4 o.
+Definition W_C02 (o : obs) : bool := W3 o.
 (* ... and of the theorem about launches, back-off and giving up only: F20/F21, F37 *)
 Definition W_C02_core (o : obs) : bool := W2 o.
 
@@ -72,10 +72,10 @@ Qed.
 
 (* the monitor's checks, in a state related to the observer *)
 Lemma mon_ok s o th e s' : Rc cs s o -> P2all s o -> step_core s th e = Some s' ->
-  mon_C02 cs o (th, e) = true \/ W4 o = true.
+  mon_C02 cs o (th, e) = true \/ W3 o = true.
 Proof.
-  intros HRc HP H. destruct (W4 o) eqn:EW; [now right|left].
-  pose proof (W4_W2 _ EW) as EW2.
+  intros HRc HP H. destruct (W3 o) eqn:EW; [now right|left].
+  pose proof (W3_W2 _ EW) as EW2.
   unfold mon_C02. cbn [fst snd].
   destruct e; try (cbn; repeat match goal with |- context[match ?x with _ => _ end] => destruct x end; reflexivity).
   - (* ELaunch *)
@@ -198,7 +198,7 @@ Proof.
   intros cs ord evs s Hacc HW. unfold holds_C02.
   eapply (sim_holds_partial cs ord (R2 cs) (mon_C02 cs) W_C02 (R2_init cs ord)); eauto.
   - intros s0 o e s1 HR Hs. destruct (R2_step cs _ _ _ _ HR Hs) as (A & B & _). auto.
-  - intros o e. apply W4_mono.
+  - intros o e. apply W3_mono.
 Qed.
 
 Theorem C02_core : forall cs ord evs s,
